@@ -187,7 +187,7 @@ fn direct(v: &Value) -> Result<CaseResult, String> {
 }
 
 pub fn suites() -> Vec<Suite> {
-    vec![Suite {
+    vec![crate::props::funcs::suite_pair_key(), Suite {
         name: "registry",
         about: "histories of CreatePair calls over prefix-sharing denoms, cw20 tokens, unregistered denoms and non-token addresses, checked against a reference registry keyed by unordered asset identity (every unordered pair of the asset universe is looked up in both orders after each creation)",
         head_len: FACTORY_HEAD,
